@@ -78,7 +78,13 @@ def execute(cases, fuel=8000, timeout_ms=5000, model=True):
     t2 = time.time()
     for c, a, b in zip(cases, impl, mod):
         c.impl, c.model = a, b
-    return {'impl_s': round(t1 - t0, 1), 'model_s': round(t2 - t1, 1)}
+    # a time-out under load is not a hang: before it is believed, the case runs again on its own with ten times the budget
+    slow = [c for c in cases if c.impl.startswith('TIMEOUT') and not (c.model or '').startswith('ABN')]
+    if slow and len(slow) <= 200:
+        again = run_impl([c.req for c in slow], timeout_ms=timeout_ms * 10, jobs=4)
+        for c, a in zip(slow, again):
+            c.impl = a
+    return {'impl_s': round(t1 - t0, 1), 'model_s': round(t2 - t1, 1), 'timeouts_rerun': len(slow)}
 
 DRIVER_TIMEOUT = 'CRASH:rc=-9:' + hx('driver timeout')
 
@@ -172,7 +178,8 @@ def execute_cli(cases, timeout=10, fuel=8000, jobs=None):
         reqs.append('cli\t' + hx(''.join('\x01' + a for a in c.args)) + '\t' + hx(c.stdin) + '\t' + spec)
     mod = run_model(reqs, fuel=fuel)
     for c, m in zip(cases, mod):
-        c.model = m
+        # 'impl-only' cases are beyond the model's reach (millions of iterations): decided by their oracle alone
+        c.model = None if c.label.startswith('impl-only') else m
     return {'impl_s': round(t1 - t0, 1), 'model_s': round(time.time() - t1, 1)}
 
 def cli_canon_err(err):
@@ -221,3 +228,32 @@ def cli_describe(c):
     if c.model is not None:
         d['model'] = describe(c.model)
     return d
+
+
+def cli_oracle_expect(clis):
+    """implementation-only cases carry what the property prescribes in `note`: {'out':…, 'err':…, 'status':…}"""
+    bad = []
+    for c in clis:
+        if not c.label.startswith('impl-only') or not isinstance(c.note, dict):
+            continue
+        if c.timed_out:
+            bad.append((c, 'the run did not finish')); continue
+        exp = c.note
+        if 'out' in exp and c.out != exp['out'].encode():
+            bad.append((c, f'stdout is {c.out[:200]!r}, the property prescribes {exp["out"][:200]!r}')); continue
+        if 'err' in exp and c.err != exp['err'].encode():
+            bad.append((c, f'stderr is {c.err[:200]!r}, the property prescribes {exp["err"][:200]!r}')); continue
+        if 'status' in exp and c.status != exp['status']:
+            bad.append((c, f'exit status {c.status}, the property prescribes {exp["status"]}'))
+    return bad
+
+def long_loop_cases():
+    """loops far longer than any model run: six million iterations of while and of for, a late break and a late continue"""
+    from .core import KW
+    W, F, P, V, I, B, C = KW['while'], KW['for'], KW['print'], KW['var'], KW['if'], KW['break'], KW['continue']
+    progs = [
+        (f'{V} i = 0;\n{W} (i < 6000000) {{ i = i + 1; }}\n{P} i;\n{P} "end";\n', '6e+06\nend\n'),
+        (f'{V} s = 0;\n{F} ({V} i = 0; i < 6000000; i = i + 1) {{ {I} (i % 2 == 0) {C}; s = s + 1; }}\n{P} s;\n', '3e+06\n'),
+        (f'{V} i = 0;\n{W} (1) {{ i = i + 1; {I} (i == 2500000) {B}; }}\n{P} i;\n', '2.5e+06\n'),
+    ]
+    return [CliCase('impl-only-long-loop', ['p.bn'], {'p.bn': src.encode()}, b'', 'p.bn', note={'out': out, 'err': '', 'status': 0}) for src, out in progs]
